@@ -61,7 +61,7 @@ let () =
       let full = n >= 1000000 in
       for a = (if full then 0 else 128) to 255 do
         for b = (if full then 0 else 128) to 255 do
-          if full || ((a land 7 = 0 || a land 7 = 7 || a = 0x85) ) then
+          if full || ((a land 7 = 0 || a = 0xff || a = 0x85) && (b land 3 = 0 || b = 0xff || b = 0x83)) then
           for c = 0 to 255 do k [a; b; c] done
         done
       done);
